@@ -448,10 +448,10 @@ func main() {
 	scs = append(scs, scenario{"find", []int{real}, keys[0], 0}, scenario{"put", []int{real, 0}, keys[0], 1}, scenario{"get", []int{0, 0, 1}, keys[0], 0}, scenario{"join", []int{0, 0}, keys[0], 0})
 	longHistories()
 	hugeRepeat = evid.Pick(run, 64, 1000)
-	limit := evid.Pick(run, 400_000, 3_000_000)
+	limit := evid.Pick(run, 400_000, 1_000_000)
 	// the thorough universe (5 real nodes) has choice trees far beyond any budget: every
-	// scenario is cut at 3 million leaves, and after 15 minutes the remaining ones at 2000
-	deadline := time.Now().Add(evid.Pick(run, time.Hour, 15*time.Minute))
+	// scenario is cut at 1 million leaves, and after 8 minutes the remaining ones at 2000
+	deadline := time.Now().Add(evid.Pick(run, time.Hour, 8*time.Minute))
 	var wg sync.WaitGroup
 	var mu sync.Mutex
 	leavesTotal, complete := 0, true
